@@ -60,8 +60,29 @@ TGraph == /\ IsEvent("Graph")
              /\ Expect(ok = (E.obs.checkErrs = 0), <<"Tx.Check verdict differs from the accounting predicate (C19); predicate says", ok>>)
              /\ Expect(E.obs.cli = -1 \/ (ok = (E.obs.cli = 0)), <<"bbolt check exit status differs from the accounting predicate (C19); predicate says", ok>>)
 
+(* C20: repair commands.  abandon: same content, no freelist page in either meta.  rebuild (of an   *)
+(* abandoned file): same content, a persisted free list that is exactly the unreachable pages (the  *)
+(* partition clause of Consistent).  revert-meta-page directly after a commit: exactly the previous *)
+(* version, consistent.  Every command writes only its output.                                      *)
+TSurgery ==
+   /\ IsEvent("Surgery")
+   /\ Expect(E.exit = 0 /\ E.srcSame, <<"surgery command failed or changed its source", E.exit>>)
+   /\ Expect(E.out.opened /\ E.out.checkErrs = 0, "output of the surgery command does not open / fails the integrity check")
+   /\ LET g == [E.g EXCEPT !.fl = SeqSet(E.g.fl)] IN
+      CASE E.kind = "abandon" ->
+             /\ Expect(E.out.content = E.versions[ToString(E.src.txid)], "abandoning the free list changed the content")
+             /\ Expect(~g.hasfl /\ E.m0fl = -1 /\ E.m1fl = -1, "free list not abandoned in both meta pages")
+             /\ Expect(Consistent(g), "accounting broken after abandon")
+        [] E.kind = "rebuild" ->
+             /\ Expect(E.out.content = E.versions[ToString(E.src.txid)], "rebuilding the free list changed the content")
+             /\ Expect(g.hasfl /\ Consistent(g), "after rebuild the free pages are not exactly the unreachable pages")
+        [] E.kind = "revert" ->
+             /\ Expect(E.out.txid = E.src.txid - 1, <<"revert-meta-page does not open at the previous transaction", E.src.txid - 1>>)
+             /\ Expect(E.out.content = E.versions[ToString(E.src.txid - 1)], "revert-meta-page does not present exactly the previously committed state")
+             /\ Expect(Consistent(g), "accounting broken after revert-meta-page")
+
 EInit == l = 1
-ENext == TFile \/ TMetas \/ TGraph
+ENext == TFile \/ TMetas \/ TGraph \/ TSurgery
 ESpec == EInit /\ [][ENext]_l
 HighWater == TLCSet(1, IF TLCGet(1) < l THEN l ELSE TLCGet(1))
 Accepted == IF TLCGet(1) = Len(Input) + 1 THEN TRUE
